@@ -386,7 +386,8 @@ Fixpoint notify_imported (s : core) (ins : list (list str * entry * bool)) : res
 Definition do_import (s : core) (j : json) : core * output :=
   match dec_persisted j with
   | None => (s, out_res (RErr E_SerdeError))
-  | Some other =>
+  | Some other0 =>
+      let other := strip_sys s_SYS other0 in      (* Store::merge leaves $SYS alone (repair of F29) *)
       let d' := merge (data s) other in
       let s' := set_data s d' (count_values d') in
       let ins := insertions (data s) other in
